@@ -35,6 +35,7 @@ uint32_t simrt_switches(void);			/* context switches / interrupts so far        
 void simrt_irq_handler(void (*handler)(int depth), int max_depth);
 /* plan n interrupts: the i-th fires gaps[i] eligible scheduling points after the (i-1)-th */
 void simrt_irq_plan(uint32_t n, uint32_t max_gap);
+void simrt_irq_set_gap(uint32_t i, uint32_t gap);	/* override one planned gap */
 void simrt_irq_mask(bool masked);
 uint32_t simrt_irq_pending(void);		/* planned interrupts not fired yet             */
 int simrt_irq_depth(void);
